@@ -120,7 +120,7 @@ def build_kwargs(case, tmp):
         from . import c10
         if not sm["with_all"]:
             kw.pop("all_classes_mode", None)
-        texts = [(selectors.render(it["sel"], c10.NSD, it["styles"]), it["label"]) for it in sm["items"]]
+        texts = [(selectors.render(it["sel"], c10.NSD, it["styles"], multiline_ok=bool(sm["json"])), it["label"]) for it in sm["items"]]
         if sm["json"]:
             kw["shape_map_raw"] = _json.dumps([{"nodeSelector": a, "shapeLabel": b} for a, b in texts])
             kw["shape_map_format"] = "json"
